@@ -42,6 +42,7 @@ impl<T> TemporalUnwrap for Option<T> {
 #[derive(Clone, Copy, PartialEq, Eq, Structural)]
 pub struct NonZeroU32 { pub v: u32 }
 impl NonZeroU32 {
+    pub const MIN: NonZeroU32 = NonZeroU32 { v: 1 };
     #[verifier::external_body]
     pub const fn get(self) -> (r: u32)
         ensures r == self.v,
